@@ -421,6 +421,12 @@ impl VirtualSystem {
                 {
                     return Err(Errno::ENOTDIR);
                 }
+                if matches!(access, OfdAccess::WriteOnly | OfdAccess::ReadWrite)
+                    && matches!(inode.borrow().body, FileBody::Directory { .. })
+                {
+                    // A directory cannot be opened for writing.
+                    return Err(Errno::EISDIR);
+                }
                 if flags.contains(OpenFlag::Truncate)
                     && let FileBody::Regular { content, .. } = &mut inode.borrow_mut().body
                 {
